@@ -26,6 +26,11 @@ def canon(doc) -> str:
     return json.dumps(doc, sort_keys=False, default=str)
 
 
+def itertools_islice(it, n):
+    import itertools
+    return itertools.islice(it, n)
+
+
 def do(op: dict) -> dict:
     import stingray.cobol_parser as CP
     import stingray.schema_instance as SI
@@ -182,6 +187,26 @@ def do(op: dict) -> dict:
         if op.get("keep"):
             KEEP.append((header_row.nav, {}))
         return out
+    if kind == "rebind":
+        # one open EBCDIC file of fixed-length records (RECFM F, no explicit lrecl) bound first to one layout, then -- before any row is
+        # taken -- to another of a different length; also through a second sheet of the same workbook
+        import stingray.estruct as E
+        import stingray.workbook as WB
+        first = SI.SchemaMaker.from_json(list(CP.schema_iter(io.StringIO(op["first"])))[0])
+        second = SI.SchemaMaker.from_json(list(CP.schema_iter(io.StringIO(op["second"])))[0])
+        out3: dict = {}
+        for how in ("same-sheet", "second-sheet"):
+            try:
+                wb = WB.COBOL_EBCDIC_File("history.data", file_object=io.BytesIO(bytes.fromhex(op["data"])), recfm_class=E.RECFM_F)
+                sheet = wb.sheet("")
+                sheet.set_schema(first)
+                if how == "second-sheet":
+                    sheet = wb.sheet("")
+                sheet.set_schema(second)
+                out3[how] = [[repr(r.name(f).value()) for f in op["fields"]] for r in itertools_islice(sheet.rows(), op["max_rows"])]
+            except BaseException as ex:  # noqa: BLE001
+                out3[how] = err_enum(ex)
+        return out3
     if kind == "twofiles":
         # two EBCDIC files with different layouts, both open at once, read alternately: one row of A, one row of B, ...
         import itertools
